@@ -202,12 +202,14 @@ CHECKS = {
              "Enforcer (known findings F10-*). Proved instead: decisions taken while no reload is in progress are old-or-new "
              "(sequential schedules); with nothing in the policy directories every 'A preempted after k steps, B's whole call, A's "
              "rest' schedule is old-or-new for every k, scenario and list of registered defaults (no_dirs_one_switch_safe); and "
-             "the build-then-publish variant is old-or-new for ALL schedules (swap_safe). The check enumerates every schedule "
-             "with one or two context switches (the property's quantifier) at source-line granularity for eleven reload "
-             "scenarios, compares the set of obtainable decisions with the model's, prints KNOWN-FINDING for the recorded "
-             "windows and reports any other mixed decision (other scenario, request, outcome, or with no thread inside "
-             "load_rules); thorough adds every other policy name as the request and, reported as observations beyond the "
-             "quantifier, a grid of three-switch schedules.",
+             "the build-then-publish variant is old-or-new for ALL schedules (swap_safe). The check enumerates, at source-line "
+             "granularity and for twelve reload scenarios, the schedules with at most two context switches (the property's "
+             "quantifier) in two families - files changed before both calls (A preempted after every line k, B's whole call, "
+             "A's rest) and files changed after the decider started (decider preempted before / inside / after its own load "
+             "step, reloader preempted after every line j, decider finishes) - compares the set of obtainable decisions with the "
+             "model's, prints KNOWN-FINDING for the fifteen recorded windows and reports any other mixed decision; thorough adds "
+             "every other policy name as the request, more decider positions and, as observations beyond the quantifier, a "
+             "grid of three-switch schedules.",
         note="PARTIAL: preemption at source-line boundaries inside the library (the property's own granularity); bytecode-level interleavings not explored.",
         technique="Lean 4 proof (decide witness; case analysis over all preemption points for directory-free scenarios; invariant over all schedules for the safe variant) + exhaustive enumeration of the schedules with at most two context switches on the real code",
         design="§7 C20"),
